@@ -408,9 +408,17 @@ func main() {
 			go func(g int) {
 				defer wg.Done()
 				<-gate
-				logs[g] = append(logs[g], Event{Seq: d.seq.Add(1), G: g, Ev: "inv", Call: k + 1})
-				out := d.do(k, obj)
-				logs[g] = append(logs[g], Event{Seq: d.seq.Add(1), G: g, Ev: "ret", Call: k + 1, Out: out})
+				// Parse keeps no state in the Path: only many simultaneous parses
+				// expose state shared inside the parser, so that burst is repeated
+				reps := 1
+				if d.calls[k].Entry == "parse" {
+					reps = 12
+				}
+				for r := 0; r < reps; r++ {
+					logs[g] = append(logs[g], Event{Seq: d.seq.Add(1), G: g, Ev: "inv", Call: k + 1})
+					out := d.do(k, obj)
+					logs[g] = append(logs[g], Event{Seq: d.seq.Add(1), G: g, Ev: "ret", Call: k + 1, Out: out})
+				}
 			}(g)
 		}
 		close(gate)
